@@ -257,3 +257,8 @@ Proof.
   unfold log_bytes in H2. rewrite H2. apply frames_prefix_wire; try assumption.
   rewrite app_length. pose proof (wire_length fs). lia.
 Qed.
+
+Corollary c16w_monitor_fresh ops w0 : w_op w0 < 16 -> w_buf w0 = [] -> Forall wf_key (w_masks w0) ->
+  d_calls (w_dest w0) = [] -> Forall op_wf ops -> Forall op_small ops ->
+  c16w_monitor (steps_of ops (fst (run_wops ops w0))) (dest_log (w_dest (snd (run_wops ops w0)))) = true.
+Proof. intros Ho Hb Hm Hd. apply c16w_monitor_holds. apply fresh_Jinv; assumption. Qed.
